@@ -23,7 +23,7 @@ PT_Y = {"pt_v": 1.5, "pt_pinout": 2.5, "pt_cref": -0.5}
 SIZES = [4, 0, 1, 3]
 
 PCLS_YAML = [{"decl": "class Cls", "declarations": [
-    {"decl": "Cls(int v)"}, {"decl": "~Cls()"}, {"decl": "int get() const"}, {"decl": "void set(int v)"},
+    {"decl": "Cls(int v)"}, {"decl": "Cls(const std::string & s)"}, {"decl": "~Cls()"}, {"decl": "int get() const"}, {"decl": "void set(int v)"},
     {"decl": "int add(const Cls & other, int k = 2)"},
     # member variables (docs/classes.rst "Member Variables"): descriptors of the Python type
     {"decl": "int value"}, {"decl": "int ro +readonly"}, {"decl": "double other +name(alt)"},
@@ -34,7 +34,7 @@ PCLS_YAML = [{"decl": "class Cls", "declarations": [
         {"decl": "Derived(int v, int w)"}, {"decl": "~Derived()"}, {"decl": "int extra() const"}]}]
 PCLS_HPP = """
 class Cls { public: int value; int ro; double other; unsigned short us; uint8_t u8; long long ll; float fl; bool flag;
-    Cls(int v, bool quiet) : value(v), ro(2 * v), other(v + 0.5), us(7), u8(3), ll(100), fl(1.5f), flag(true) { (void)quiet; } explicit Cls(int v); ~Cls(); int get() const; void set(int v); int add(const Cls &other, int k = 2); };
+    Cls(int v, bool quiet) : value(v), ro(2 * v), other(v + 0.5), us(7), u8(3), ll(100), fl(1.5f), flag(true) { (void)quiet; } explicit Cls(int v); explicit Cls(const std::string &s); ~Cls(); int get() const; void set(int v); int add(const Cls &other, int k = 2); };
 """
 PCLS_HPP += """
 class Derived : public Cls { public: int more; Derived(int v, int w); ~Derived(); int extra() const; };
@@ -53,6 +53,9 @@ PCLS_CPP += """
 Cls::Cls(int v) : value(v), ro(2 * v), other(v + 0.5), us(7), u8(3), ll(100), fl(1.5f), flag(true) {
     vt_begin("LibEnter", "Cls::Cls"); vt_target("ns1::Cls::Cls(int)"); vt_int(v); vt_end();
     vt_begin("LibExit", "Cls::Cls"); vt_target("ns1::Cls::Cls(int)"); vt_obj(this); vt_end(); }
+Cls::Cls(const std::string &s) : value((int)s.size() + 50), ro(1), other(0.5), us(7), u8(3), ll(100), fl(1.5f) {
+    vt_begin("LibEnter", "Cls::Cls"); vt_target("ns1::Cls::Cls(const std::string&)"); vt_str(s.c_str(), (long)s.size()); vt_end();
+    vt_begin("LibExit", "Cls::Cls"); vt_target("ns1::Cls::Cls(const std::string&)"); vt_obj(this); vt_end(); }
 Cls::~Cls() { }
 int Cls::get() const {
     vt_begin("LibEnter", "Cls::get"); vt_target("ns1::Cls::get()"); vt_obj(this); vt_end();
@@ -217,7 +220,8 @@ def class_plan():
         return {"params": params, "nsup": len(params), "self": self, "result": result, "resback": "id"}
     I = lambda v: {"t": "i", "v": [v]}   # noqa: E731
     O = lambda k: {"t": "o", "v": [k]}   # noqa: E731
-    ctor = [{"target": "ns1::Cls::Cls(int)", "sig": sig([pm("int")], False, "obj"), "names": ["v"]}]
+    ctor = [{"target": "ns1::Cls::Cls(int)", "sig": sig([pm("int")], False, "obj"), "names": ["v"]},
+            {"target": "ns1::Cls::Cls(const std::string&)", "sig": sig([pm("str")], False, "obj"), "names": ["s"]}]
     get = [{"target": "ns1::Cls::get()", "sig": sig([], True, "int"), "names": []}]
     setc = [{"target": "ns1::Cls::set(int)", "sig": sig([pm("int")], True, "none"), "names": ["v"]}]
     add = [{"target": "ns1::Cls::add(const Cls&,int)",
@@ -251,8 +255,15 @@ def class_plan():
     call("method", "e.extra()", extra, [], [], [], {}, obj="e", name="extra", selfid=3)
     call("method", "a.add(e, 3)", add, [O(3), I(3)], [], ["@e", 3], {}, obj="a", name="add", selfid=1)
     call("method", "e.add(other=a)", add, [], [("other", O(1))], [], {"other": "@a"}, obj="e", name="add", selfid=3)
+    # the second constructor (overloaded tp_init): by position and by keyword
+    S = lambda t: {"t": "s", "v": [ord(ch) for ch in t]}   # noqa: E731
+    call("ctor", "g = Cls('abc')", ctor, [S("abc")], [], ["abc"], {}, store="g")
+    call("method", "g.get()", get, [], [], [], {}, obj="g", name="get", selfid=4)
+    call("ctor", "h = Cls(s='')", ctor, [], [("s", S(""))], [], {"s": ""}, store="h")
+    call("method", "h.get()", get, [], [], [], {}, obj="h", name="get", selfid=5)
     call("ctor", "Derived(4) [no match]", dctor, [I(4)], [], [4], {}, store="f", cls="Derived")
-    call("ctor", "Cls('x') [no match]", ctor, [{"t": "s", "v": [120]}], [], ["x"], {}, store="c")
+    call("ctor", "Cls([1]) [no match]", ctor, [{"t": "ai", "v": [1]}], [], [[1]], {}, store="c")
+    call("ctor", "Cls(v=1, s='x') [no match]", ctor, [], [("v", I(1)), ("s", S("x"))], [], {"v": 1, "s": "x"}, store="c")
     return P
 
 
